@@ -557,4 +557,31 @@ theorem setChain_prim_kidsClosed (k v : String) : ∀ (rest : List Seg) (h : Hea
       have hl1 := (storeSeg_upd (h ++ [(⟨some t, s.str, .sub [] []⟩ : Node)]) t s h.length).1
       exact ih _ h.length (Nat.lt_of_lt_of_le (by simp) hl1) kc1
 
+theorem kidsClosed_attachCtx {h : Heap} (child t : Id) (f : String) (kc : KidsClosed h) : KidsClosed (attachCtx h child t f) := by
+  intro a x hx
+  rw [kids_attachCtx] at hx
+  rw [attachCtx_length]
+  exact kc a x hx
+
+theorem setChain_child_kidsClosed (child : Id) : ∀ (rest : List Seg) (h : Heap) (t : Id), t < h.length → child < h.length →
+    KidsClosed h → KidsClosed (setChain h t rest (.child child)) := by
+  intro rest
+  induction rest with
+  | nil => intro h t _ _ kc; exact kc
+  | cons s r ih =>
+    intro h t ht hc kc
+    cases r with
+    | nil =>
+      rw [setChain_child_one]
+      exact storeSeg_kidsClosed _ t s child (by rw [attachCtx_length]; exact ht) (by rw [attachCtx_length]; exact hc)
+        (kidsClosed_attachCtx child t s.str kc)
+    | cons s2 r2 =>
+      rw [setChain_cons2]
+      have kcA : KidsClosed (h ++ [(⟨some t, s.str, .sub [] []⟩ : Node)]) := kidsClosed_append_leaf _ kc rfl
+      have kc1 := storeSeg_kidsClosed _ t s h.length (by simp; exact Nat.lt_succ_of_lt ht) (by simp) kcA
+      have hl1 := (storeSeg_upd (h ++ [(⟨some t, s.str, .sub [] []⟩ : Node)]) t s h.length).1
+      have hlt : h.length < (storeSeg (h ++ [(⟨some t, s.str, .sub [] []⟩ : Node)]) t s h.length).length :=
+        Nat.lt_of_lt_of_le (by simp) hl1
+      exact ih _ h.length hlt (Nat.lt_trans hc hlt) kc1
+
 end Ucfg.Forest
